@@ -1,4 +1,6 @@
 import Driver.StoreD
+import Driver.LexD
+import Driver.ConstructD
 /-
 One line in, one line out.  First word selects the model.
 Run: `lake env lean --run Driver/Main.lean < ops.txt`
@@ -7,10 +9,13 @@ open Driver
 
 structure World where
   store : StoreWorld := {}
+  lex : LexWorld := {}
 
 def step (w : World) (line : String) : World × String :=
   match splitWords line with
   | "S" :: rest => let (s, out) := storeStep w.store rest; ({ w with store := s }, out)
+  | "L" :: rest => let (s, out) := lexStep w.lex rest; ({ w with lex := s }, out)
+  | "C" :: rest => (w, constructStep rest)
   | ["reset"] => ({}, "ok")
   | _ => (w, "!bad-op")
 
